@@ -1182,6 +1182,24 @@ pub fn run(ctx: &Ctx) -> (Vec<Case>, String, bool, BTreeMap<String, String>) {
     // capacity under a configuration that changes while `new` reads it (C13's untorn stream, block
     // driver only, on the model, MMIO and PCI transports): the capacity must be one the device exposed
     all.extend(crate::runner::par_cases(ctx, "C14", "blk-capacity-untorn", 9, |i, id| crate::c13_config::consistent_case(ctx, (i % 3) * 5 + (i / 3) * 15, id)));
-    let rule = "real VirtIOBlk on ModelTransport+LedgerHal (bouncing) against a spec-written reference block device with an in-memory disk. Stream `blk`: random feature sets (RO, FLUSH, INDIRECT, EVENT_IDX, VERSION_1, ACCESS_PLATFORM + unknown bits), capacity words, then 10..40 (quick) / 10..90 (thorough) operations: non-blocking reads/writes up to and beyond a queue-full (5 direct / 16 indirect), device completions of a randomly chosen pending request with a random status byte (0,1,2,3 biased, all 256 possible) and used length, peek_used, complete_* of the head or of a wrong token, blocking read/write/flush/device_id when idle; sectors in range, at the end of the disk, beyond it and anywhere in 64 bits; lengths 1..8 (24) sectors. Stream `blk-malformed`: the same plus invalid lengths (0, non-multiples of 512: panic expected) and blocking calls while an older completion is unconsumed (WrongToken). Stream `blk-status`: all 256 status bytes x {write, read, flush, id, non-blocking read} (complete enumeration of the status byte). Stream `blk-wrap`: 66000 non-blocking reads on one device (the 16-bit ring indices wrap), each must be matched with its completion. Stream `blk-capacity-untorn`: VirtIOBlk::new while the device replaces its configuration (bumping the generation) at every point / pair of points of the capacity read, on the model, MMIO and PCI transports: capacity() must be a value the device exposed under one generation. Non-trivial = at least one request completed with status OK and its data verified against the generator's shadow disk (capacity stream: a capacity was returned).".to_string();
+    // the capacity field read through device-configuration windows of every length around its end, MMIO
+    // and PCI (C13's bounds stream): a read that ends exactly at the end of the window succeeds
+    let mut b = crate::c13_config::bounds_cases_for(ctx, "C14", true);
+    for c in b.iter_mut() {
+        c.id = format!("C14-via-{}", c.id);
+        c.tag("config-window");
+    }
+    all.extend(b);
+    // negotiation (C08's construction stream, block driver only): only features the driver implements are
+    // accepted — e.g. not IN_ORDER, under which a device may report a batch of requests with one used element
+    let mut f8 = crate::c08_init::run(ctx).0;
+    f8.retain(|c| c.steps.first().map(|(op, _)| op.contains(" drv=0 ")).unwrap_or(false));
+    for c in f8.iter_mut() {
+        c.oracle_failures.retain(|f| f.contains("does not implement"));
+        c.id = format!("C14-via-{}", c.id);
+        c.tag("negotiation");
+    }
+    all.extend(f8);
+    let rule = "real VirtIOBlk on ModelTransport+LedgerHal (bouncing) against a spec-written reference block device with an in-memory disk. Stream `blk`: random feature sets (RO, FLUSH, INDIRECT, EVENT_IDX, VERSION_1, ACCESS_PLATFORM + unknown bits), capacity words, then 10..40 (quick) / 10..90 (thorough) operations: non-blocking reads/writes up to and beyond a queue-full (5 direct / 16 indirect), device completions of a randomly chosen pending request with a random status byte (0,1,2,3 biased, all 256 possible) and used length, peek_used, complete_* of the head or of a wrong token, blocking read/write/flush/device_id when idle; sectors in range, at the end of the disk, beyond it and anywhere in 64 bits; lengths 1..8 (24) sectors. Stream `blk-malformed`: the same plus invalid lengths (0, non-multiples of 512: panic expected) and blocking calls while an older completion is unconsumed (WrongToken). Stream `blk-status`: all 256 status bytes x {write, read, flush, id, non-blocking read} (complete enumeration of the status byte). Stream `blk-wrap`: 66000 non-blocking reads on one device (the 16-bit ring indices wrap), each must be matched with its completion. Stream `blk-capacity-untorn`: VirtIOBlk::new while the device replaces its configuration (bumping the generation) at every point / pair of points of the capacity read, on the model, MMIO and PCI transports: capacity() must be a value the device exposed under one generation. Plus C13's configuration-window bounds stream (MMIO, PCI) and the block-driver cases of C08's construction stream (accepted features within the implemented set). Non-trivial = at least one request completed with status OK and its data verified against the generator's shadow disk (capacity stream: a capacity was returned).".to_string();
     (all, rule, false, BTreeMap::new())
 }
